@@ -1,6 +1,7 @@
 package agent
 
 import (
+	"errors"
 	"github.com/postalsys/muti-metroo/internal/identity"
 	"github.com/postalsys/muti-metroo/internal/peer"
 	"github.com/postalsys/muti-metroo/internal/protocol"
@@ -24,7 +25,18 @@ type c16Sent struct {
 var c16Log []c16Sent
 
 // replacement for (*peer.Manager).SendToPeer (configured in props): the mesh is the harness
+// c16StallTo: sends to this peer hang until c16Stall is closed and then fail (a link that
+// stops responding and is then dropped); unset in every harness that does not use it
+var (
+	c16StallTo identity.AgentID
+	c16Stall   chan struct{}
+)
+
 func c16SendToPeer(m *peer.Manager, id identity.AgentID, f *protocol.Frame) error {
+	if c16Stall != nil && id == c16StallTo {
+		<-c16Stall
+		return errors.New("peer link dropped")
+	}
 	c16Log = append(c16Log, c16Sent{id, f})
 	return nil
 }
